@@ -148,7 +148,7 @@ def project_interp(run) -> dict:
         elif k in ("init", "exec", "finalize"):
             node = item_node.get(e["inst"], "")
             f = tree.facts(node)
-            ev.append({"e": k, "t": e["t"], "n": node, "name": e["name"], "inst": e["inst"], "inj": f["inj"], "rep": f["rep"],
+            ev.append({"e": k, "t": e["t"], "n": node, "name": e["name"], "inst": e["inst"], "inj": f["inj"], "rep": f["rep"], "suffix": f["suffix"], "conds": f["conds"], "macro": f["macro"], "cls": f["cls"], "args": f["args"],
                        "finite": e["name"] in FINITE_CMDS})
         elif k == "req":
             kind = e["k"]
